@@ -1,5 +1,5 @@
 import Driver.Util
-import FjallModel.Lemmas.StallRankB
+import FjallModel.Lemmas.StallRank
 namespace Driver
 open Fjall.Stall
 
